@@ -235,6 +235,24 @@ ADDENDA8 = {
  "C19": " Round nine: the JSON wire names of the response types are those of the reference table; a strings.Cut walk over an Accept value continues while a separator is found; the legacy path protocol keeps its own transcoder and validator.",
  "C20": " Round nine: the legacy path protocol is registered with the package's own transcoder and validator.",
 }
+ADDENDA9 = {
+ "C01": " Round ten: no state-writing clean-up is deferred before the deferred unlock of the per-publisher mutex; the sync client's hook loop is left only when the fetched blocks are exhausted.",
+ "C05": " Round ten: a local copy of the decoded record has no field replaced before it is returned.",
+ "C06": " Round ten: WithTTL stores its argument unconditionally; the sources wrap transport errors with %w.",
+ "C07": " Round ten: when the main map is rebuilt, both lookups and the entry written use one key.",
+ "C08": " Round ten: a return of the announce handler on 'nothing was taken' needs no outcome.",
+ "C09": " Round ten: an accepted announcement is handed on (shared with C08.L7); the public filter classifies all IP- and DNS-family codes.",
+ "C12": " Round ten: a length test against the cipher's overhead lets a ciphertext of exactly that length through; the provider sources wrap errors with %w.",
+ "C13": " Round ten: a codec allow-list includes DAG-JSON and DAG-CBOR.",
+ "C14": " Round ten: the sync client's hook loop is left only when the fetched blocks are exhausted.",
+ "C15": " Round ten: the receiver waits for nothing while holding its mutex (shared with C16.K1b).",
+ "C16": " Round ten: the senders pair every WaitGroup.Add with a Done on all paths; Publish is given no readiness option.",
+ "C18": " Not decided: which errors of a well-formedness pre-check reject a request (one seeded change of that kind is not caught: seeded-missed/).",
+ "C19": " Round ten: no length test in the constructor turns away keys longer than a constant; errors for nil arguments are not constrained.",
+ "C20": " Round ten: a constant port range test passes 0 and 65535.",
+}
+for _pid, _extra in ADDENDA9.items():
+    ADDENDA8[_pid] = ADDENDA8.get(_pid, "") + _extra
 for _pid, _extra in ADDENDA8.items():
     ADDENDA7[_pid] = ADDENDA7.get(_pid, "") + _extra
 for _pid, _extra in ADDENDA7.items():
